@@ -111,15 +111,17 @@ class TraceStringThreadnamePrev:
 
 def handle_trace_data_newthread(parser, events):
     result = events[0].values
-    parser.last_data_newthread = TraceDataNewthread(events, result[0], result[1], result[2], result[3])
-    parser.threads_pids[parser.last_data_newthread.tid] = parser.last_data_newthread.pid
-    return parser.last_data_newthread
+    event = TraceDataNewthread(events, result[0], result[1], result[2], result[3])
+    parser.last_data_newthread[events[0].tid] = event
+    parser.threads_pids[event.tid] = event.pid
+    return event
 
 
 def handle_trace_data_exec(parser, events):
     result = events[0].values
-    parser.last_data_exec = TraceDataExec(events, result[0], result[1], result[2])
-    return parser.last_data_exec
+    event = TraceDataExec(events, result[0], result[1], result[2])
+    parser.last_data_exec[events[0].tid] = event
+    return event
 
 
 def handle_trace_data_thread_terminate(parser, events):
@@ -164,15 +166,17 @@ def handle_trace_string_global(parser, events):
 
 def handle_trace_string_newthread(parser, events):
     event = TraceStringNewthread(events, events[0].data.replace(b'\x00', b'').decode())
-    if parser.last_data_newthread is not None:
-        parser.pids_names[parser.last_data_newthread.pid] = event.name
+    last_data = parser.last_data_newthread.get(events[0].tid)
+    if last_data is not None:
+        parser.pids_names[last_data.pid] = event.name
     return event
 
 
 def handle_trace_string_exec(parser, events):
     event = TraceStringExec(events, events[0].data.replace(b'\x00', b'').decode())
-    if parser.last_data_exec is not None:
-        parser.pids_names[parser.last_data_exec.pid] = event.name
+    last_data = parser.last_data_exec.get(events[0].tid)
+    if last_data is not None:
+        parser.pids_names[last_data.pid] = event.name
     return event
 
 
